@@ -300,6 +300,9 @@ type BCase struct {
 	Decoder  string `json:"decoder"` // itf | code128 | upcean_l | upcean_l_and_g
 	Counters []int  `json:"counters"`
 	Offset   int    `json:"offset"`
+	// Trail is the number of pixels after the last run; 0 = the symbol is flush with the row end
+	// (RecordPattern then fills the last counter while running off the side, which is legitimate)
+	Trail *int `json:"trail,omitempty"`
 }
 
 // intScore: the contract in integers. score = dev/(plen*total) with dev = sum |c_i*plen - p_i*total|;
@@ -418,7 +421,11 @@ func checkBest(raw json.RawMessage) error {
 			sb.WriteString(strings.Repeat(string(col), v))
 			col ^= 1
 		}
-		sb.WriteString(strings.Repeat(string(col), 3))
+		trail := 3
+		if c.Trail != nil {
+			trail = *c.Trail
+		}
+		sb.WriteString(strings.Repeat(string(col), trail))
 		row := rowOf(sb.String())
 		cnt := make([]int, n)
 		for i := range cnt {
@@ -431,6 +438,9 @@ func checkBest(raw json.RawMessage) error {
 		}
 	}
 	desc := fmt.Sprintf("%s best-match decoder on runs %v (limits avg %v, individual %v)", c.Decoder, c.Counters, lim[0], lim[1])
+	if c.Trail != nil {
+		desc += fmt.Sprintf(", %d pixels after the last run", *c.Trail)
+	}
 	if !want.found {
 		if err == nil {
 			return fmt.Errorf("decoded %d although no template scores below the maximum average variance [%s]", got, desc)
@@ -658,6 +668,9 @@ func TestCheck(t *testing.T) {
 				bidx++
 				if c.Mine(bidx) {
 					cs := BCase{Decoder: d.dec, Counters: append([]int(nil), cnt...), Offset: bidx % 3}
+					if tr := (bidx / 3) % 4; tr != 3 {
+						cs.Trail = &tr
+					}
 					noteBest("best_match_small_exhaustive", cs)
 					if !c.Enum("best_match_small_exhaustive", "best", cs, nil) {
 						break
@@ -701,6 +714,9 @@ func TestCheck(t *testing.T) {
 				}
 			}
 			cs := BCase{Decoder: dec, Counters: cnt, Offset: rapid.IntRange(0, 40).Draw(t, "offset")}
+			if tr := rapid.IntRange(0, 5).Draw(t, "trail"); tr < 3 {
+				cs.Trail = &tr
+			}
 			noteBest("best_match_random", cs)
 			if err := c.Eval("best", cs); err != nil {
 				t.Fatalf("%v", err)
